@@ -105,12 +105,16 @@ class ActionKinds:
         self._depth = 0
         self._summaries = {}
         self.module_funcs = {}      # name -> (file, FunctionDef) for helpers callable from actions
+        self.class_tuples = {}      # module-level NAME = (cls, cls, ...)
         src = model.src
         for file in (g.file, 'mindsdb_sql/parser/utils.py', 'mindsdb_sql/parser/ast/select/identifier.py'):
             if src.exists(file):
                 for n in src.tree(file).body:
                     if isinstance(n, ast.FunctionDef):
                         self.module_funcs.setdefault(n.name, (file, n))
+                    elif isinstance(n, ast.Assign) and len(n.targets) == 1 and isinstance(n.targets[0], ast.Name) and isinstance(n.value, ast.Tuple) and n.value.elts \
+                            and all(dotted(e_) is not None for e_ in n.value.elts):
+                        self.class_tuples.setdefault(n.targets[0].id, n.value)       # NUMBER_TYPES = (int, float): usable as the second argument of isinstance
         tree_file = g.file
         from .source import SourceSet
         self._fold_cache = {}
@@ -709,7 +713,10 @@ class ActionKinds:
                     return self.narrow(ast.Call(func=ast.Name(id='isinstance', ctx=ast.Load()), args=[test.args[0], guard.args[1]], keywords=[]), st, True, prod, pvar)
         if isinstance(test, ast.Call) and dotted(test.func) == 'isinstance' and len(test.args) == 2:
             cur = self.ev(test.args[0], st, prod, pvar, None)
-            ts = test.args[1].elts if isinstance(test.args[1], ast.Tuple) else [test.args[1]]
+            a1 = test.args[1]
+            if isinstance(a1, ast.Name) and a1.id in self.class_tuples:
+                a1 = self.class_tuples[a1.id]
+            ts = a1.elts if isinstance(a1, ast.Tuple) else [a1]
             names = {(dotted(t) or UNK).split('.')[-1] for t in ts}
             def matches(k):
                 if k in names:
